@@ -22,7 +22,6 @@ theorem transferBalance_total (b b' : Bal) (src tgt : Addr) (a : Amount)
   unfold transferBalance at h
   cases a with
   | err => simp at h
-  | outside => simp at h
   | val v =>
     simp only at h
     by_cases hn : v < 0
@@ -196,7 +195,6 @@ theorem contractBefore_total (b : Bal) (t : ContractTx) : total (beforeBal (cont
           simp only
           cases strToBigInt t.value with
           | err => exact h1
-          | outside => exact h1
           | val v =>
             simp only
             split
@@ -341,7 +339,6 @@ theorem contractBefore_other (b : Bal) (t : ContractTx) (a : Addr) (h1 : a ≠ t
           simp only
           cases strToBigInt t.value with
           | err => exact k
-          | outside => exact k
           | val v =>
             simp only
             split
